@@ -70,11 +70,14 @@ def run(chk):
     # exhaustive + per-edge replay over the whole alphabet; the preludes move the free blocks to
     # where votes / penalties / cancellation / the POW-DPOS switch are live
     # job = (label, prelude, kinds, last height, items per block, rollbacks, behaviours replayed, sweep span, print 1 edge in N)
+    big = []
     if thorough:
-        jobs = [("basic", "basic", K, 9, 1, 1, 2500, 6, 20), ("basic-pairs", "basic", K, 8, 2, 1, 3000, 6, 40),
-                ("mode", "mode", K, 19, 1, 1, 1500, 6, 30), ("votes", "votes", K, 10, 1, 1, 2000, 6, 1),
-                ("votes-pairs", "votes", K, 9, 2, 1, 1500, 6, 1), ("penalty", "penalty", K, 11, 1, 1, 2000, 6, 1),
-                ("penalty-pairs", "penalty", K, 10, 2, 1, 700, 6, 1), ("cancel-pairs", "cancel", K, 12, 2, 1, 2500, 6, 4)]
+        jobs = [("basic", "basic", K, 8, 1, 1, 2500, 6, 1), ("basic-deep", "basic", K, 9, 1, 1, 2500, 6, 25),
+                ("votes", "votes", K, 10, 1, 1, 2500, 6, 2), ("votes-pairs", "votes", K, 9, 2, 1, 1500, 6, 1),
+                ("penalty", "penalty", K, 11, 1, 1, 2000, 6, 1), ("penalty-pairs", "penalty", K, 10, 2, 1, 700, 6, 1),
+                ("cancel-pairs", "cancel", K, 12, 2, 1, 2500, 6, 4), ("mode", "mode", K, 18, 1, 1, 1500, 6, 2)]
+        # model checking only: two free blocks of pairs, the POW-DPOS switch with three free blocks
+        big = [("basic-pairs", "basic", K, 8, 2, 1), ("mode-deep", "mode", K, 19, 1, 1), ("cancel-pairs", "cancel", K, 12, 2, 1)]
     else:
         jobs = [("basic", "basic", K, 8, 1, 1, 240, 4, 1), ("votes", "votes", K, 10, 1, 1, 220, 4, 4),
                 ("cancel", "cancel", K, 11, 2, 1, 200, 4, 1)]
@@ -82,12 +85,15 @@ def run(chk):
     import concurrent.futures
     num = 60 if thorough else 8
     vf._copy_spec(os.path.join(vf.SPEC, "Consensus"))
-    with concurrent.futures.ThreadPoolExecutor(max_workers=2) as ex:
+    with concurrent.futures.ThreadPoolExecutor(max_workers=3) as ex:
         sims = [ex.submit(dc.simulate, chk, "sim", "basic", K, 30 if thorough else 24, num, vf.seed())]
         if thorough:   # one transaction per block: cheaper steps, more sequences
             sims.append(ex.submit(dc.simulate, chk, "sim-single", "basic", K, 30, 250, vf.seed() + 1, 1))
+        xh = ex.submit(dc.exhaustive_all, chk, big) if big else None
         allbehs = dc.explore_all(chk, jobs)
         simres = [f.result() for f in sims]
+        if xh:
+            xh.result()
     for behs, recs in simres:
         chk.absorb(recs, "replay simulated sequences")
     selftest(chk, allbehs[0], "basic")
